@@ -3,6 +3,7 @@ import Pycoin.Proofs.Bech32Poly
 import Pycoin.Proofs.ConvertBits
 import Pycoin.Proofs.Bech32Str
 import Pycoin.Proofs.Bech32Err
+import Pycoin.Proofs.Bech32Err4
 import Pycoin.Proofs.ParseableStr
 import Pycoin.Gen.Confusables
 /-!
@@ -686,27 +687,41 @@ theorem C11_errdetect_w2 (xs : List Nat) (s : Encoding) (hx : polymod xs = specC
   · subst hs; intro h; exact hne.1 (hred.1.mp h)
   · intro h; exact hne.2 ((hred.2 s' hs).mp h)
 
-/-- number of non-zero symbols of an error word -/
-def weight (e : List Nat) : Nat := (e.filter (· ≠ 0)).length
-
 /-- the finite statement behind BIP173's guarantee: no non-zero error word of weight ≤ 4 spanning at most 89 symbols
-has syndrome 0 (it is a statement about the generator words only) -/
+has syndrome 0 (it is a statement about the generator words only; `weight` = number of non-zero symbols,
+`Proofs/Bech32Err4.lean`) -/
 def NoZeroSyndrome : Prop :=
   ∀ e : List Nat, e.length ≤ 89 → (∀ x ∈ e, x < 32) → 1 ≤ weight e → weight e ≤ 4 → syndrome e ≠ 0
 
-/-- **up to four substitutions, partial.** *Extra hypothesis*: `NoZeroSyndrome` (proved above for weights 1 and 2 as
-`C11_errdetect_w1/_w2`; for weights 3–4 it was checked outside Lean — all 3 766 036 syndromes of weight ≤ 2 within 89
-symbols are distinct — and is sampled by the harness, not proved).  Under it, any 1..4 substitutions within the last 89
-symbols of a word accepted with constant `s` give a word that is *not accepted with the same constant*.  Acceptance
-under the other constant is not excluded: see `C11_errdetect_any4_refuted`. -/
-theorem C11_errdetect_le4_partial (H : NoZeroSyndrome) (xs : List Nat) (s : Encoding) (hx : polymod xs = specConst s)
+/-- **minimum distance 5 within the BIP173 length limit** — `NoZeroSyndrome` holds for the generator words that
+`bech32_polymod` has now.  Weights 1–2: `singles_table_w1/_w2`.  Weights 3–4 (`Proofs/Bech32Err4.lean`): the syndrome
+is the xor of the single-error syndromes `v·x^j mod g` of its non-zero symbols; shifting all positions down (a round
+with a zero symbol is injective) puts the lowest error at position 0, where its syndrome is the symbol itself, i.e.
+lives in the lowest five bits; multiplying by a scalar of GF(32) (`sigma`, commutes with a round on the whole table)
+makes one of the other symbols 1.  What is left is finite: for 1 ≤ k < l ≤ 88 and d in 1..31 the 118 668 values
+`(single k 1 xor single l d) >> 5` avoid the 2 729 keys `single j v >> 5` (and 0).  The table of the 89 × 31
+single-error syndromes is regenerated from the real `bech32_polymod` by the translator (`Gen/Bech32Syn.lean`),
+re-derived from the model in the kernel (`synRows_rowsFrom`), and the avoidance is evaluated in the kernel
+(`synChunkA..D`) through bit-set filters each proved to contain every key (`synFilters_ok`). -/
+theorem C11_bech32_min_distance_5 : NoZeroSyndrome := syndrome_ne_zero_le4
+
+/-- **up to four substitutions** (hypothesis-free; replaces the former `C11_errdetect_le4_partial`).  Any 1..4 substituted symbols within the last 89 symbols of a word
+accepted with constant `s` — `xs` = expanded hrp ++ data ++ checksum, so for every string up to the BIP173 limit of 90
+characters all of the data part and checksum, whatever the hrp — give a word that is *not accepted with the same
+constant*.  `corrupt xs e` xors symbol-wise, which covers every substitution.  Acceptance under the *other* constant is
+not excluded (and happens): see `C11_errdetect_any4_refuted`. -/
+theorem C11_errdetect_le4 (xs : List Nat) (s : Encoding) (hx : polymod xs = specConst s)
     (a : Nat) (e : List Nat) (he : e.length ≤ 89) (hlt : ∀ x ∈ e, x < 32) (hw1 : 1 ≤ weight e) (hw4 : weight e ≤ 4)
     (hl : xs.length = a + e.length) :
     polymod (corrupt xs (List.replicate a 0 ++ e)) ≠ specConst s := by
   have hred := C11_errdetect_reduction xs (List.replicate a 0 ++ e) (by simp; omega) s hx
   rw [syndrome_replicate_append] at hred
   intro h
-  exact H e he hlt hw1 hw4 (hred.1.mp h)
+  exact syndrome_ne_zero_le4 e he hlt hw1 hw4 (hred.1.mp h)
+
+/-- non-vacuity: a weight-4 error word of 89 symbols satisfies the hypotheses (and has a non-zero syndrome) -/
+example : let e := 3 :: 0 :: 7 :: (List.replicate 84 0 ++ [1, 31])
+    e.length ≤ 89 ∧ (∀ x ∈ e, x < 32) ∧ weight e = 4 ∧ syndrome e ≠ 0 := by decide +kernel
 
 /-- number of positions in which two strings of the same length differ -/
 def hamming (a b : List Char) : Nat := ((a.zip b).filter (fun p => p.1 != p.2)).length
